@@ -339,9 +339,11 @@ func (vc *VC) refColumn(col string, s Sort, l Leaf) {
 	h := vc.colInit(col, s)
 	switch s {
 	case SArrInt:
-		vc.assertGlobal(fmt.Sprintf("(forall ((r Int)) (and (<= 0 (select %s r)) (< (select %s r) alloc0)))", h, h))
+		// only cells of objects allocated in the pre-state: the cells of objects
+		// allocated later are where callee contracts describe fresh results
+		vc.assertGlobal(fmt.Sprintf("(forall ((r Int)) (=> (< r alloc0) (and (<= 0 (select %s r)) (< (select %s r) alloc0))))", h, h))
 	case SArr2Int:
-		vc.assertGlobal(fmt.Sprintf("(forall ((r Int) (i Int)) (and (<= 0 (select (select %s r) i)) (< (select (select %s r) i) alloc0)))", h, h))
+		vc.assertGlobal(fmt.Sprintf("(forall ((r Int) (i Int)) (=> (< r alloc0) (and (<= 0 (select (select %s r) i)) (< (select (select %s r) i) alloc0))))", h, h))
 	}
 }
 
@@ -373,7 +375,9 @@ func (vc *VC) wellFormedLoaded(st *State, v SV) SV {
 		}
 		v.T[i] = vc.define("ld", l.Sort, v.T[i])
 	}
-	vc.assert(vc.wf(v, st.alloc))
+	// a fact about the heap on *this* path only: guarded, or it would make other
+	// paths (where the cell may hold anything) contradictory
+	vc.assert(mkImp(st.guard, vc.wf(v, st.alloc)))
 	return v
 }
 
